@@ -15,6 +15,7 @@ Sites == {"literal", "shl", "shl-lhs", "shr", "div", "div-lhs", "mod", "mul", "a
           "mixed-types", "mixed-types-insn", "macro-value", "seg-start-string",
           "import-super", "import-as-super", "import-super-path",   \* `super' where an import expects a name of the imported file
           "nested-defined", "macro-blocks-3", "macro-blocks-95", "macro-ifs-40",   \* depth that exists only after expansion: blocks x macro recursion
+          "loop-untaken-loop",     \* iterations spent inside an untaken branch (analysis mode) count towards the pass budget too
           "segblock-untaken", "segblock-untaken-own",          \* an untaken branch inside a `.segment' block inside an untaken branch / uninvoked macro, and code after it
           "deep-braces", "deep-parens", "long-chain", "nested-calls", "unclosed-parens"}      \* size, not value: recursion and backtracking          \* operands no pass can ever make sense of      \* recursion only through a branch that is not taken (the analysis mode visits it)
 NumericSites == {"literal", "shl", "shl-lhs", "shr", "div", "div-lhs", "mod", "mul", "add", "sub", "neg",
